@@ -4,7 +4,7 @@ PATCH="$1"; shift
 W=/tmp/evalrepo
 HEAD=$(git -C /repo rev-parse HEAD)
 git -C $W checkout -q -f --detach $HEAD && git -C $W clean -fdq
-git -C $W apply "$PATCH" || { echo "PATCH DOES NOT APPLY"; exit 2; }
+cp /repo/librebound*.so $W/ 2>/dev/null; git -C $W apply "$PATCH" || { echo "PATCH DOES NOT APPLY"; exit 2; }
 cd /verif
 for P in "$@"; do
   VERIF_REPO=$W ./vcheck $P --jobs ${JOBS:-12} 2>&1 | grep -E "^VIOLATION|^KNOWN|^C[0-9]+:|TASK-ERROR" | cut -c1-260 | sed "s/^/[$P] /" | head -${LINES_MAX:-8}
